@@ -77,8 +77,13 @@ def make_immediate_file(context, file, mode='w', makedirs=True):
         os.makedirs(file.path.parent().string(context.env.base_dirs),
                     exist_ok=True)
 
-    with open(file.path.string(context.env.base_dirs), mode) as f:
+    # Write to a temporary file and rename it into place, so that an
+    # interrupted run never leaves a truncated (but seemingly up-to-date) file
+    # behind; these files are outputs of the regeneration step.
+    filename = file.path.string(context.env.base_dirs)
+    with open(filename + '.tmp', mode) as f:
         yield f
+    os.replace(filename + '.tmp', filename)
     context.build['regenerate'].outputs.append(file)
 
 
